@@ -38,6 +38,7 @@ type watchInput struct {
 	SlowHook string   `json:"slowHook,omitempty"` // this hook always sleeps (targeted schedule)
 	Perturb  int      `json:"perturb"`            // percent of hook calls that sleep 0-3 ms
 	LateDial int      `json:"lateDial"`           // clients dialled while shutting down
+	Chase    bool     `json:"chase,omitempty"`    // each change is made the moment the previous result was stored
 	Ops      []string `json:"ops,omitempty"`      // filled in by the driver: the harness schedule
 }
 
@@ -80,6 +81,13 @@ func driveWatch(c *Ctx) error {
 		for i, h := range hooks {
 			inputs = append(inputs, watchInput{Seed: c.Seed*1000 + 500 + int64(i), Clients: 2, Changes: 3, SlowHook: h, Perturb: 10, LateDial: 2})
 		}
+		// chase schedules: a slow client-side point + changes chained to the previous broadcast
+		for i, h := range []string{"getres-end", "getres-begin", "woke", "write"} {
+			if !c.Thorough() && i >= 2 && int(c.Seed)%2 != i%2 {
+				continue
+			}
+			inputs = append(inputs, watchInput{Seed: c.Seed*1000 + 700 + int64(i), Clients: 2, Changes: 3, SlowHook: h, Chase: true, LateDial: 1})
+		}
 	}
 	for _, in := range inputs {
 		evs, nt, err := watchRun(in)
@@ -109,19 +117,44 @@ func opsOf(evs []tr.M) []string {
 }
 
 type watchTracer struct {
-	mu      sync.Mutex
-	evs     []tr.M
-	inReq   bool
-	clients map[any]int // *wsclient -> id
-	rng     *rand.Rand
-	rngMu   sync.Mutex
-	in      watchInput
-	addr    chan string
-	stopped atomic.Bool
+	mu         sync.Mutex
+	evs        []tr.M
+	inReq      bool
+	clients    map[any]int // *wsclient -> id
+	rng        *rand.Rand
+	rngMu      sync.Mutex
+	in         watchInput
+	addr       chan string
+	stopped    atomic.Bool
+	lastEvent  atomic.Int64 // time of the last logged event: the harness's notion of "the watcher is idle"
+	takeAt     int64
+	maxCompile atomic.Int64
 }
 
 func (t *watchTracer) log(e tr.M) {
 	t.evs = append(t.evs, e)
+	now := time.Now().UnixNano()
+	t.lastEvent.Store(now)
+	// how long a compile takes on this machine right now (take -> setres), for the idleness threshold
+	switch e["ev"] {
+	case "take":
+		t.takeAt = now
+	case "setres":
+		if t.takeAt != 0 {
+			if d := now - t.takeAt; d > t.maxCompile.Load() {
+				t.maxCompile.Store(d)
+			}
+		}
+	}
+}
+
+// idleAfter: no event for this long means nothing is in flight (4 compile times, at least 1.5 s)
+func (t *watchTracer) idleAfter() time.Duration {
+	d := time.Duration(4 * t.maxCompile.Load())
+	if d < 1500*time.Millisecond {
+		d = 1500 * time.Millisecond
+	}
+	return d
 }
 
 func (t *watchTracer) emit(e tr.M) {
@@ -135,7 +168,17 @@ func (t *watchTracer) maybeSleep(ev string) {
 		return
 	}
 	if t.in.SlowHook == ev {
-		time.Sleep(6 * time.Millisecond)
+		// targeted schedule: this point is held open long enough for a whole compile + broadcast to pass
+		// (client-side points) or for clients to run ahead (server-side points)
+		d := 6 * time.Millisecond
+		switch ev {
+		case "getres-begin", "getres-end", "woke", "write", "register", "client":
+			d = 150 * time.Millisecond
+			if mc := time.Duration(t.maxCompile.Load()) * 3 / 2; mc > d {
+				d = mc // a loaded machine compiles more slowly: keep the window wider than one compile
+			}
+		}
+		time.Sleep(d)
 		return
 	}
 	if t.in.Perturb > 0 {
@@ -360,6 +403,34 @@ func watchRun(in watchInput) (evs []tr.M, nontrivial []string, err error) {
 	// ---- schedule: interleave dials, changes, hangups
 	var live []*client
 	toDial, toChange := in.Clients, in.Changes
+	if in.Chase {
+		// "chase" schedule: every change is made the moment the previous version's result has been stored,
+		// so that each compile+broadcast lands while the clients are still busy with the previous result
+		waitSetres := func(v int) {
+			for dl := time.Now().Add(10 * time.Second); time.Now().Before(dl); time.Sleep(time.Millisecond) {
+				t.mu.Lock()
+				seen := false
+				for i := len(t.evs) - 1; i >= 0 && !seen; i-- {
+					if t.evs[i]["ev"] == "setres" && t.evs[i]["v"] == v {
+						seen = true
+					}
+				}
+				t.mu.Unlock()
+				if seen {
+					return
+				}
+			}
+		}
+		for ; toDial > 0; toDial-- {
+			live = append(live, dial())
+		}
+		waitSetres(1)
+		time.Sleep(20 * time.Millisecond)
+		for ; toChange > 0; toChange-- {
+			change()
+			waitSetres(ver)
+		}
+	}
 	for toDial > 0 || toChange > 0 {
 		switch k := hrng.Intn(10); {
 		case k < 4 && toDial > 0:
@@ -381,9 +452,16 @@ func watchRun(in watchInput) (evs []tr.M, nontrivial []string, err error) {
 		}
 	}
 	// ---- quiescence: bounded liveness. Every live client must see the last version.
-	deadline := time.Now().Add(6 * time.Second) // shorter than the watcher's 10 s poll ticker, which would paper over a lost request
+	// Bounded liveness without a wall-clock bet: wait while the watcher is doing something. The run counts as
+	// not settled only when nothing has been logged for 1.5 s (the watcher is idle: nothing in flight can still
+	// deliver the result) - well before the watcher's 10 s poll ticker could paper over a lost request - or
+	// after 30 s of continuous activity.
+	deadline := time.Now().Add(30 * time.Second)
 	settled := false
 	for time.Now().Before(deadline) {
+		if idle := time.Since(time.Unix(0, t.lastEvent.Load())); idle > t.idleAfter() {
+			break
+		}
 		ok := true
 		for _, cl := range live {
 			if cl.failed {
